@@ -42,13 +42,13 @@ extern void mpt_linepart_linear(MPT_STRUCT(linepart) *part, const double *from, 
 	
 	/* partial first */
 	if (*from < min) {
-		if (len >= 2 && from[1] >= min && from[1] <= max) {
+		if (len >= 2 && !(from[1] < min || from[1] > max)) {
 			part->_cut = mpt_linepart_code((min-from[0])/(from[1]-from[0]));
 			part->raw = part->usr = 2; from += 2; len -= 2;
 		}
 	}
 	else if (*from > max) {
-		if (len >= 2 && from[1] >= min && from[1] <= max) {
+		if (len >= 2 && !(from[1] < min || from[1] > max)) {
 			part->_cut = mpt_linepart_code((from[0]-max)/(from[0]-from[1]));
 			part->raw = part->usr = 2; from += 2; len -= 2;
 		}
